@@ -96,6 +96,9 @@ type genOpts struct {
 	KeySeedBase byte // epochs with the same base share addresses
 	Rewards     bool
 	FirstSlotAt uint64 // offset of the first block inside the epoch
+	// ExactSecLens: stand-alone DataFrame objects whose CAR section payload (cid+data) has exactly these lengths
+	// (varint-width boundaries 127/128, 16383/16384, …) are written after the first blocks
+	ExactSecLens []int
 }
 
 func pp[T any](v T) **T { p := &v; return &p }
@@ -188,6 +191,29 @@ func (w *carW) frames(payload []byte, k, fan int) ipldbindcode.DataFrame {
 	return mk(0)
 }
 
+// exactFrame returns an encoded DataFrame node of exactly `want` bytes (want ≥ 16).
+func exactFrame(rng *zz.RNG, want int) []byte {
+	n := want - 16
+	if n < 0 {
+		n = 0
+	}
+	for tries := 0; tries < 64; tries++ {
+		df := ipldbindcode.DataFrame{Kind: 6, Hash: pp(int(rng.U64() >> 1)), Index: pp(0), Total: pp(1), Data: rng.Bytes(n)}
+		enc, err := df.MarshalCBOR()
+		if err != nil {
+			panic(err)
+		}
+		if len(enc) == want {
+			return enc
+		}
+		n += want - len(enc)
+		if n < 0 {
+			n = 0
+		}
+	}
+	panic(fmt.Sprintf("exactFrame: cannot reach %d bytes", want))
+}
+
 func genKeys(n int, base byte) []solana.PrivateKey {
 	var ks []solana.PrivateKey
 	for i := 0; i < n; i++ {
@@ -277,9 +303,12 @@ func genEpoch(rng *zz.RNG, dir string, o genOpts) *gEpoch {
 				meta.LoadedWritableAddresses = [][]byte{lk[:]}
 				gt.Loaded = append(gt.Loaded, lk)
 			}
+			// unique per transaction, so that no two metadata payloads (and hence no two frames) are byte-identical:
+			// the properties speak of CARs with distinct CIDs
+			meta.LogMessages = []string{fmt.Sprintf("tx %x", rng.Bytes(12))}
 			if big {
 				// make the metadata incompressible and large so that a frame exceeds 16 KiB
-				meta.LogMessages = []string{fmt.Sprintf("%x", rng.Bytes(12000))}
+				meta.LogMessages = append(meta.LogMessages, fmt.Sprintf("%x", rng.Bytes(12000)))
 			}
 			metaRaw, err := proto.Marshal(meta)
 			if err != nil {
@@ -343,6 +372,9 @@ func genEpoch(rng *zz.RNG, dir string, o genOpts) *gEpoch {
 		ge.bySlot[gb.Slot] = gb
 		parent = slot
 		slot++
+		if b < len(o.ExactSecLens) {
+			w.put(exactFrame(rng, o.ExactSecLens[b]-36))
+		}
 	}
 	sub := ipldbindcode.Subset{Kind: 3, First: int(ge.Blocks[0].Slot), Last: int(ge.Blocks[len(ge.Blocks)-1].Slot), Blocks: blockLinks}
 	enc, _ := sub.MarshalCBOR()
